@@ -461,11 +461,14 @@ func (f Filter) Accept(ctx context.Context, pgmut *sync.Mutex, pg wpg.Conn, d an
 		case "!contains":
 			frs.add(!slices.Contains(f.Arg, v))
 		case "eq":
-			frs.add(v == f.Arg[0])
+			frs.add(slices.Contains(f.Arg, v))
 		case "ne":
-			frs.add(v != f.Arg[0])
+			frs.add(!slices.Contains(f.Arg, v))
 		}
 	case uint64:
+		if len(f.Arg) == 0 {
+			return nil
+		}
 		i, err := strconv.ParseUint(f.Arg[0], 10, 64)
 		if err != nil {
 			return fmt.Errorf("unable to convert filter arg to int: %q", f.Arg[0])
@@ -481,6 +484,9 @@ func (f Filter) Accept(ctx context.Context, pgmut *sync.Mutex, pg wpg.Conn, d an
 			frs.add(v < i)
 		}
 	case *uint256.Int:
+		if len(f.Arg) == 0 {
+			return nil
+		}
 		i := &uint256.Int{}
 		if err := i.SetFromDecimal(f.Arg[0]); err != nil {
 			return fmt.Errorf("unable to convert filter arg dec to uint256: %q", f.Arg[0])
